@@ -98,6 +98,8 @@ def renderOut (names : Array String) : Out → String
       | .names ids =>
         "(S" ++ String.join ((sortStrings (ids.map (fun i => names.getD i "?"))).map
           (fun n => " " ++ Sexp.quote n)) ++ ")"
+    -- `complete_at` drops the match lists when nothing was found (lib.rs:816)
+    if st.found = .notFound then s!"(N {s})" else
     s!"({f} {ms st.enclosing} {ms st.near} {s})"
 
 def handle : List Sexp → String
